@@ -12,6 +12,9 @@ EXTENDS Integers, Sequences, FiniteSets, TLC
 
 \* L1, L2: two different custom projections that have no EPSG code (the code's lazy EPSG lookup answers "none" for both)
 Tags == {<<"none", "">>, <<"G", "epsg">>, <<"G", "wkt">>, <<"P", "epsg">>, <<"P", "wkt">>, <<"L1", "proj">>, <<"L2", "proj">>}
+\* different authorities that happen to use the same numeric code name different systems:
+\* A1 = EPSG:4812, A2 = ESRI:4812 (code 4812 twice), A3 = IAU_2015:30165, A4 = EPSG:30165 (code 30165 twice)
+AuthTags == {<<"A1", "auth">>, <<"A2", "auth">>, <<"A3", "auth">>, <<"A4", "auth">>}
 \* lazy state of a CRS object: its EPSG code is looked up on first use and remembered ("unset" -> "code" | "none").
 \* Equality of classes must not depend on it: a case is run with fresh objects (warm = FALSE) and after the lookup happened
 \* on every operand (warm = TRUE, as xr_coords / assign_crs do implicitly); the expected verdict is the same.
